@@ -232,6 +232,23 @@ pub struct CPub {
     node: CNode,
 }
 
+/// the C publisher's backpressure handler; `ctx` points to the mode (see PsCfg::handler)
+extern "C" fn c_backpressure_handler(info: iox2_backpressure_info_h_ref, ctx: iox2_callback_context) -> iox2_backpressure_action_e {
+    let mode = unsafe { *(ctx as *const u8) };
+    match mode {
+        1 => iox2_backpressure_action_e::DISCARD_DATA,
+        2 => iox2_backpressure_action_e::DISCARD_DATA_AND_FAIL,
+        3 => {
+            if unsafe { iox2_backpressure_info_retries(info) } == 0 {
+                iox2_backpressure_action_e::RETRY
+            } else {
+                iox2_backpressure_action_e::DISCARD_DATA_AND_FAIL
+            }
+        }
+        _ => iox2_backpressure_action_e::FOLLOW_BACKPRESSUREY_STRATEGY,
+    }
+}
+
 impl CPub {
     pub fn new(prefix: &str, name: &str, cfg: &PsCfg) -> Result<Box<dyn PubPort>, Obs> {
         let node = CNode::new(cfg.svc, prefix)?;
@@ -253,6 +270,11 @@ impl PubPort for CPub {
             let b = iox2_port_factory_pub_sub_publisher_builder(&self.svc, null_mut());
             iox2_port_factory_publisher_builder_set_max_loaned_samples(&b, self.cfg.max_loans);
             iox2_port_factory_publisher_builder_backpressure_strategy(&b, iox2_backpressure_strategy_e::DISCARD_DATA);
+            if self.cfg.handler != 0 {
+                // the context outlives the port (leaked on purpose: one byte per created publisher)
+                let ctx = Box::into_raw(Box::new(self.cfg.handler)) as *mut c_void;
+                iox2_port_factory_publisher_builder_set_backpressure_handler(&b, c_backpressure_handler, ctx);
+            }
             if self.cfg.slice {
                 iox2_port_factory_publisher_builder_set_initial_max_slice_len(&b, self.cfg.max_slice_len);
                 iox2_port_factory_publisher_builder_set_allocation_strategy(&b, iox2_allocation_strategy_e::STATIC);
